@@ -6,6 +6,8 @@ input (numbers are integers or `n/d` rationals; a field is `n:<number>` or `s:<t
   mode linear|cosine|none
   pt <c|o> <dur-ticks> <value> <control-field> <channel-field>     one event of the stream (c = control event)
   run <n0> <count> <nticks>          schedule(count=count or None) starting in tick n0, then nticks ticks
+  runmuted <n0> <count> <nticks> <m0> <m1>   the same, the track muted during its ticks m0 ≤ k < m1 (k counted from
+                                     its first tick): what the device hears (`Interp/Mute.lean`, `runMuted`)
   pinterp <steps> <n> <v1> <v2> …    PInterpolate(PSequence([v…], 1), steps, mode): the first n values
   end
 output:
@@ -18,6 +20,7 @@ The cosine ease is instantiated with the C library's `cos` (to 2⁻⁵² absolut
 comparable with the implementation's floats; no theorem refers to it.
 -/
 import IsobarV.Interp.Model
+import IsobarV.Interp.Mute
 import IsobarV.Util.Parse
 
 namespace IsobarV.Interp.Drv
@@ -67,6 +70,16 @@ def printRun (n0 : Nat) (os : List Outcome) : IO Unit := do
     k := k + 1
   IO.println "done"
 
+def printHeard (n0 : Nat) (hs : List Heard) : IO Unit := do
+  let mut k := n0
+  for h in hs do
+    match h with
+    | .msg m => IO.println (showOutcome k (.msg m))
+    | .silent => pure ()
+    | .ended o => IO.println (showOutcome k o)
+    k := k + 1
+  IO.println "done"
+
 def handle (s : St) (line : String) : IO St := do
   match words line with
   | ["case", id] => IO.println s!"case {id}"; return {}
@@ -78,6 +91,10 @@ def handle (s : St) (line : String) : IO St := do
     return { s with pts := s.pts.push p }
   | ["run", n0, count, n] =>
     printRun (toNat! n0) (trace s.f s.pts.toList (toNat! count) (toNat! n))
+    return s
+  | ["runmuted", n0, count, n, m0, m1] =>
+    let flags := (List.range (toNat! n)).map fun k => decide (toNat! m0 ≤ k ∧ k < toNat! m1)
+    printHeard (toNat! n0) (runMuted s.f flags (Track.fresh s.pts.toList (toNat! count)))
     return s
   | "pinterp" :: steps :: n :: vs =>
     match PI.init (vs.map parseRat) (toNat! steps) with
